@@ -52,7 +52,7 @@ def run(prop, tier, seed):
     binp = vlib.build_harness(wd, race=True, driver="none,racep")
     quick = tier == "quick"
     shards = max(2, min(vlib.NCPU, 12))
-    iters = 6 if quick else 60
+    iters = 6 if quick else 300
     for f in glob.glob(os.path.join(wd, "race.*")):
         os.remove(f)
     procs = []
